@@ -178,7 +178,7 @@ type stats struct {
 	// distinct (session, path) pairs: an admitted path on which "rewrites, then policy" and "policy, then rewrites"
 	// differ; a selected path with NO_EXPORT in front of NO_ADVERTISE on an iBGP session
 	orderDecides, noAdvBehindNoExport int
-	byWhy                                map[string]int
+	byWhy                             map[string]int
 }
 
 type result struct {
